@@ -102,6 +102,32 @@ def run(ck):
     part = ev_call(MX + "prepPartialBodyEchoing")
     ck.require_fact("E2.part-echo-gates", fl, part, E.m_is_mem(MX + "State::readyForUob"), True, "prepPartialBodyEchoing()", why="(virgin suffix would be mixed into a non-206 adapted body)")
     ck.require_fact("E2.part-echo-gates", fl, part, ck.m_result_of(pb, "Adaptation::Icap::ChunkExtensionValueParser::sawUseOriginalBody"), True, "prepPartialBodyEchoing()")
+    ck.rule("E3 virgin body accounting: the virgin-body cursors advance by exactly the amount that was handed on -- echoMore(): virginBodySending.progress(n) with n the "
+            "result of adapted.body_pipe->putMoreData(virginContentData(virginBodySending), <offered>) (the bytes the adapted pipe *accepted*, not the bytes offered: "
+            "virginConsume() discards everything below the cursor); writeSomeBody(): virginBodyWriting.progress(n) with the same n that was appended to the write "
+            "buffer from virginContentData(virginBodyWriting)")
+    MX_ = "Adaptation::Icap::ModXact::"
+    em = facts.fn(MX_ + "echoMore")
+    put = ck.m_result_of(em, "BodyPipe::putMoreData")
+    prog = lambda obj: (lambda ev: ev.get("e") == "call" and E.strip(ev["x"]).get("f") == "Adaptation::Icap::VirginBodyAct::progress" and E.m_is_mem(obj)(E.strip(ev["x"]).get("o")))
+    for st in ck.sites(ck.flow(em), prog("virginBodySending"), "virginBodySending.progress()", 1):
+        a0 = E.strip(st.ev["x"])["a"][0]
+        if put(a0):
+            ck.ok("E3.echo-advances-by-accepted", st.where(), "echoMore advances the sending cursor by what putMoreData() accepted")
+        else:
+            ck.violation("E3.echo-advances-by-accepted", "E3|echoMore|progress-arg", st.where(),
+                         "echoMore advances virginBodySending by %s, not by the amount adapted.body_pipe->putMoreData() accepted: when the adapted pipe is full the "
+                         "unaccepted virgin bytes are skipped and then discarded by virginConsume()" % E.key(a0))
+    ws = facts.fn(MX_ + "writeSomeBody")
+    wfl = ck.flow(ws)
+    apps = [E.strip(s_.ev["x"]) for s_ in wfl.find(lambda ev: ev.get("e") == "call" and E.strip(ev["x"]).get("f") == "MemBuf::append" and any(n.get("f") == MX_ + "virginContentData" for n in E.walk(ev["x"])))]
+    ck.need(len(apps) == 1, "C60: writeSomeBody no longer appends virginContentData() to the write buffer exactly once")
+    for st in ck.sites(wfl, prog("virginBodyWriting"), "virginBodyWriting.progress()", 1):
+        a0 = E.strip(st.ev["x"])["a"][0]
+        if E.key(a0) == E.key(apps[0]["a"][1]):
+            ck.ok("E3.write-advances-by-written", st.where(), "writeSomeBody advances the writing cursor by the appended amount")
+        else:
+            ck.violation("E3.write-advances-by-written", "E3|writeSomeBody|progress-arg", st.where(), "writeSomeBody appends %s bytes but advances the cursor by %s" % (E.key(apps[0]["a"][1]), E.key(a0)))
     ck.assume("message integrity across ICAP server behaviours, preview negotiation and the Launcher retry/repeat logic are not decided; "
               "only the bypass/echo gates of ModXact are checked")
 
